@@ -17,7 +17,7 @@ LEVEL = "fault_enumeration"
 BUDGET = {"quick": 60, "thorough": 900}
 MIN_BUDGET = {"quick": 20, "thorough": 60}
 RULE = ("local backend; seeded history of 0-3 commits (treated as fully durable), then one operation under test (create, "
-        "append in three styles, two-append txn, delete file (+append), expire (+append), delete_snapshot, GC; and 2-3 "
+        "append in three styles, append_files of a pre-built file written WITHOUT fsync by the caller (top level / new sub-directory), two-append txn, delete file (+append), expire (+append), delete_snapshot, GC; and 2-3 "
         "writer THREADS SHARING ONE HANDLE or separate handles committing concurrently under a seeded scheduler) executed "
         "with a durability shadow attached to every os-level call: per-inode content captured at fsync(fd), per-"
         "directory name->inode map captured at fsync(dirfd). A power loss is evaluated after EVERY durable-state change "
@@ -39,7 +39,8 @@ COMPONENTS = common.COMPONENTS
 EXPECT_PROBES = ["image_pointer_advanced", "image_pointer_old", "ack_durable", "image_materialised", "subset_image"]
 
 OPS = ["create", "append", "append_with", "append_explicit", "multi", "delete_file", "delete_file_append", "expire",
-       "expire_append", "delete_snapshot", "gc0", "shared_threads", "shared_threads", "separate_handles"]
+       "expire_append", "delete_snapshot", "gc0", "shared_threads", "shared_threads", "separate_handles",
+       "files_append_raw", "files_append_raw_dir"]
 
 
 def gen(rng: random.Random, tier: str, idx: int) -> dict:
